@@ -317,3 +317,131 @@ def routing_recorded_before_pause(ctx, rule):
         ctx.construct(tc, extra='error_handled = some command handles it'),
         'error_handled is not "some next command handles the error" for '
         'ERROR tasks', ctx.loc(tc))
+
+
+def _isinstance_classes(bnd):
+    t = bnd['__T']
+    return {dotted(e).split('.')[-1] for e in getattr(t, 'elts', [t])
+            if dotted(e)}
+
+
+def command_dispatch(ctx, rule):
+    """dispatcher._process_commands hands every command to the handler of
+    its kind: task commands create a task (first_run false exactly for
+    RunExistingTask) and register its start, SkipTask skips,
+    SetWorkflowState sets the state, anything else raises."""
+    prog = ctx.prog
+    f = prog.func('mistral.engine.dispatcher._process_commands')
+    cfg = ctx.cfg(f)
+
+    def kinds(node, truth):
+        out = []
+        for b in U.guard_match(cfg, node, 'isinstance(cmd, __T)', truth):
+            out.append(_isinstance_classes(b))
+        return out
+    table = (('create_task', {'RunTask', 'RunExistingTask'}),
+             ('skip_task', {'SkipTask'}),
+             ('set_workflow_state', {'SetWorkflowState'}))
+    for name, want in table:
+        got = U.calls_in(cfg, name)
+        if not got:
+            raise AnalysisError('_process_commands no longer calls %s' % name)
+        for n, c in got:
+            pos = kinds(n, True)
+            rule.check(any(k and k <= want for k in pos) and
+                       not any(k & want for k in kinds(n, False)),
+                       ctx.construct(f, extra='%s for %s' % (
+                           name, '/'.join(sorted(want)))),
+                       '%s is not reached exactly for %s commands'
+                       % (name, sorted(want)), ctx.loc(f, c))
+    raises = [x for x in cfg.nodes if x.kind == 'stmt' and
+              isinstance(x.ast, ast.Raise)]
+    allk = set().union(*[w for _n, w in table])
+    rule.check(any(set().union(*kinds(x, False)) >= allk
+                   for x in raises if kinds(x, False)),
+               ctx.construct(f, extra='unknown commands raise'),
+               'a command of an unknown kind is silently ignored',
+               ctx.loc(f))
+    # first_run / reset
+    for x in cfg.nodes:
+        if x.kind == 'stmt' and isinstance(x.ast, ast.Assign) and \
+                dotted(x.ast.targets[0]) == 'first_run':
+            v = norm(x.ast.value)
+            ex_t = any('RunExistingTask' in k and len(k) == 1
+                       for k in kinds(x, True))
+            ex_f = any('RunExistingTask' in k and len(k) == 1
+                       for k in kinds(x, False))
+            rule.check((v == 'False' and ex_t) or (v == 'True' and ex_f),
+                       ctx.construct(f, x.ast),
+                       'first_run is %s on the wrong side of the '
+                       'RunExistingTask test (a rerun would be treated as a '
+                       'first run or vice versa)' % v, ctx.loc(f, x.ast))
+    ct = U.calls_in(cfg, 'create_task')
+    reg = [n for n, c in U.calls_in(cfg, 'register_operation')]
+    loops = [x for x in cfg.nodes if x.kind == 'for']
+    rule.check(bool(reg) and all(
+        cfg.must_pass(n, reg, exits=[cfg.exit] + loops) for n, _c in ct),
+        ctx.construct(f, extra='start registered for every created task'),
+        'a created task can be left without its start being registered',
+        ctx.loc(f))
+
+
+def rearrange_tail(ctx, rule):
+    """dispatcher._rearrange_commands: commands after a state-changing
+    command are dropped, except after `pause`, where they are kept (for the
+    backlog); the state command itself is kept."""
+    prog = ctx.prog
+    f = prog.func('mistral.engine.dispatcher._rearrange_commands')
+    cfg = ctx.cfg(f)
+    PW = 'isinstance(state_cmd, commands.PauseWorkflow)'
+    ext = [n for n, c in cfg.calls(
+        lambda c: U.call_name(c) == 'extend' and c.args and
+        U.phas(c.args[0], 'cmds[state_cmd_idx + 1:]'))]
+    rule.check(bool(ext) and all(U.guarded(cfg, n, PW, True) for n in ext),
+               ctx.construct(f, extra='tail kept only after pause'),
+               'the commands after a state command are kept for something '
+               'other than pause (or dropped after pause)', ctx.loc(f))
+    app = [n for n, c in cfg.calls(
+        lambda c: U.call_name(c) == 'append' and c.args and
+        dotted(c.args[0]) == 'state_cmd')]
+    rets = [x for x in cfg.nodes if x.kind == 'stmt' and
+            isinstance(x.ast, ast.Return)]
+    final = [x for x in rets if dotted(x.ast.value) == 'res']
+    rule.check(bool(app) and bool(final) and all(
+        cfg.must_pass(cfg.entry, app, exits=[x]) for x in final),
+        ctx.construct(f, extra='state command kept'),
+        'the state-changing command itself can be dropped', ctx.loc(f))
+    for x in rets:
+        v = x.ast.value
+        if isinstance(v, ast.Subscript) and dotted(v.value) == 'cmds':
+            rule.check(U.guarded(cfg, x, 'state_cmd_idx == 0', True) and
+                       U.guarded(cfg, x, PW, False),
+                       ctx.construct(f, x.ast),
+                       'only the first command is kept although it is not a '
+                       'leading fail/succeed command', ctx.loc(f, x.ast))
+        elif dotted(v) == 'cmds':
+            rule.check(U.guarded(cfg, x, 'state_cmd_idx < 0', True),
+                       ctx.construct(f, x.ast),
+                       'all commands are kept although a state command was '
+                       'found', ctx.loc(f, x.ast))
+    head = [x for x in own_nodes(f.node) if isinstance(x, ast.Assign) and
+            dotted(x.targets[0]) == 'res']
+    rule.check(len(head) == 1 and U.phas(head[0].value,
+                                         'cmds[0:state_cmd_idx]') or
+               len(head) == 1 and U.phas(head[0].value,
+                                         'cmds[:state_cmd_idx]'),
+               ctx.construct(f, extra='commands before the state command'),
+               'the commands in front of the state command are not kept',
+               ctx.loc(f))
+    SW = 'isinstance(cmd, commands.SetWorkflowState)'
+    idx = [x for x in cfg.nodes if x.kind == 'stmt' and
+           isinstance(x.ast, ast.Assign) and
+           dotted(x.ast.targets[0]) == 'state_cmd_idx' and
+           U.guard_atoms(cfg, x)]
+    brks = [x for x in cfg.nodes if x.kind == 'stmt' and
+            isinstance(x.ast, ast.Break)]
+    okb = bool(idx) and all(U.guarded(cfg, x, SW, True) for x in idx) and \
+        any(U.guarded(cfg, x, SW, True) for x in brks)
+    rule.check(okb, ctx.construct(f, extra='first state command'),
+               'the FIRST state-changing command is not the cut point',
+               ctx.loc(f))
